@@ -23,6 +23,30 @@ Theorem C17_single_cause : forall s l1 ce l2,
 Proof. exact single_cause. Qed.
 Print Assumptions C17_single_cause.
 
+(** ... for ANY NUMBER of goroutines parked in the same call: [ps] is a list of parked calls in which a call may
+    occur several times (three AcceptStream callers, two AcceptUniStream callers, several OpenStreamSync waiters,
+    several ReceiveDatagram callers, readers on different streams ...; at most one per stream direction, as the
+    API requires). Every one of them is woken by the fan-out and returns the cause. *)
+Theorem C17_single_cause_parked : forall a e ps, fresh_streams a -> Forall (call_in_range a) ps -> one_per_stream ps ->
+  woken ps = ps /\
+  Forall (fun c => let r := api_call (fanout a e) c in
+                   r <> RBlock /\
+                   (r = RErr e \/ own_result r \/ (c = CReceiveDatagram /\ a_rcvQueued a = true /\ r = ROk))) ps.
+Proof. exact single_cause_parked. Qed.
+Print Assumptions C17_single_cause_parked.
+
+(** why the maps and the datagram queue must close a channel: a single token wakes one of two waiters *)
+Theorem C17_one_token_leaves_parked : forall wk c, wk c = WakeOne -> woken_from wk [] [c; c] = [c].
+Proof. exact one_token_leaves_parked. Qed.
+Print Assumptions C17_one_token_leaves_parked.
+
+Example C17_many_acceptors_woken :
+  let ps := [CAcceptStream; CAcceptStream; CAcceptStream; CAcceptUniStream; CAcceptUniStream; COpenStreamSync; COpenStreamSync;
+             CReceiveDatagram; CReceiveDatagram; CRead 0; CRead 1] in
+  one_per_stream ps /\ woken ps = ps.
+Proof. cbv zeta. split; [|reflexivity]. unfold one_per_stream. cbn. repeat constructor; cbn; intuition discriminate. Qed.
+Print Assumptions C17_many_acceptors_woken.
+
 (** the cause may also be a timeout the loop finds itself; it is recorded the same way and is one of the two timeouts *)
 Theorem C17_single_cause_timeout : forall s l1 now pto ce l2,
   closeErr (run s l1) = None ->
